@@ -48,7 +48,10 @@ def search(ctx, broken):
 
 
 def replay(ctx, data):
-    print("replay script:")
-    for l in data["replay"].get("script", []):
-        print("  ", l)
-    run(ctx)
+    """re-executes the recorded history on the current tree"""
+    script = data["replay"].get("script", [])
+    print("replaying %d steps" % len(script))
+    res = graph.replay_script(script)
+    if res is not None:
+        ctx.report(data.get("signature", {"kind": "replay"}),
+                   data["replay"], "replayed: " + data.get("what", ""))
